@@ -288,7 +288,7 @@ Proof.
   destruct (N.eq_dec lo n) as [->|Hne]; [now left | right]. apply IH. lia.
 Qed.
 Lemma hex16_all : forallb hex16_ok (nrange (N.to_nat 65536) 0) = true.
-Proof. vm_compute. reflexivity. Qed.
+Proof. vm_cast_no_check (eq_refl true). Qed.
 
 Theorem hex16_spec n : n < 65536 -> exists s, uint16base16 n = Ok s /\ is_hex16 n s = true.
 Proof.
@@ -652,7 +652,7 @@ Definition doe_ok (k : N) : bool :=
   let '(y, m, d) := civil_of_doe (Z.of_N k) in
   ((0 <=? y) && (y <=? 400) && (1 <=? m) && (m <=? 12) && (1 <=? d) && (d <=? 31))%Z.
 Lemma doe_all : forallb doe_ok (nrange (N.to_nat 146097) 0) = true.
-Proof. vm_compute. reflexivity. Qed.
+Proof. vm_cast_no_check (eq_refl true). Qed.
 
 Lemma civil_of_doe_bounds doe : (0 <= doe < 146097)%Z ->
   let '(y, m, d) := civil_of_doe doe in
@@ -667,7 +667,7 @@ Proof.
 Qed.
 
 Definition civil_sane (c : civil) : Prop :=
-  (-100000 <= c_year c <= 100000 /\ 1 <= c_month c <= 12 /\ 1 <= c_day c <= 31 /\
+  (1600 <= c_year c <= 2400 /\ 1 <= c_month c <= 12 /\ 1 <= c_day c <= 31 /\
    0 <= c_hour c <= 23 /\ 0 <= c_min c <= 59 /\ 0 <= c_sec c <= 59)%Z.
 
 Lemma civil_of_sane secs : (-9000000000 <= secs <= 9000000000)%Z -> civil_sane (civil_of secs).
@@ -680,7 +680,7 @@ Proof.
   destruct (civil_of_doe ((days + 719468) mod 146097)) as [[y m] d].
   unfold civil_sane. cbn [c_year c_month c_day c_hour c_min c_sec].
   assert (0 <= secs mod 86400 < 86400)%Z by (apply Z.mod_pos_bound; lia).
-  assert (0 <= (days + 719468) / 146097 <= 10)%Z by (Z.div_mod_to_equations; lia).
+  assert (4 <= (days + 719468) / 146097 <= 5)%Z by (Z.div_mod_to_equations; lia).
   clearbody days. Z.div_mod_to_equations. lia.
 Qed.
 
@@ -813,7 +813,11 @@ Proof. split; vm_compute; reflexivity. Qed.
 
 (* no field depends on the zone of the Time value: the same instant gives the same line *)
 Theorem render_zone_independent f e off : render_field f (in_zone e off) = render_field f e.
-Proof. destruct f; reflexivity. Qed.
+Proof.
+  destruct f;
+    unfold render_field, render_field_with, with_req, with_url, with_resp, resp_time, e_civil, e_unixnano, in_zone;
+    cbn [e_dur e_unix e_nsec e_off e_req e_resp e_requrl e_upaddr e_upsvc e_upurl]; reflexivity.
+Qed.
 
 Theorem log_zone_independent format e off : log_line format (in_zone e off) = log_line format e.
 Proof.
